@@ -15,11 +15,13 @@ array layouts (`type_chunk_roundtrip`), and the file level: for every abstract t
 of get_res_configs, the dictionary facts behind the listings, and the composition offsets → entries
 under an explicit hypothesis (`table_roundtrip_partial`, now discharged by `type_chunk_roundtrip`).
 Domain of the file-level theorems: Spec/ArscFile.lean (`wfTable`; 64-byte configurations, 288-byte
-package headers, strings shorter than 128 units/bytes, no styles).  `_analyse` on top of the parse
-is not composed in Lean beyond `get_packages_names` (correspondence and oracle cover it).
+package headers, strings shorter than 128 units/bytes, no styles).  On top of the parse: `_analyse`
+does not raise and `resource_values` is the table's (`table_resource_values`), `get_packages_names`
+(`table_packages_names`); the other listings and the resolver's text rendering are not composed in
+Lean (correspondence and oracle cover them).
 Lemmas: AgVerif/Proof/Arsc*.lean; file-level format: AgVerif/Spec/ArscFile.lean.
 -/
-import AgVerif.Proof.ArscView
+import AgVerif.Proof.ArscAnalyseTable
 namespace AgVerif.C28
 open AgVerif.Arsc AgVerif.Gen.ArscConsts AgVerif.Spec.Arsc
 
@@ -288,6 +290,23 @@ theorem table_packages_names (l : Layout) (t : Table) (hwf : wfTable l t = true)
       = some ((t.packages.map fun p => utf8s p.name).eraseDups) := by
   rw [parseTable_enc l t hwf, Option.map_some, packagesNames_enc]
 
+/-- (6) `_analyse` on top of the file-level round trip: for a table of the domain whose package
+    names are distinct and that has no complex entry in a type named string / integer / color /
+    dimen (`analysable`: the code raises AttributeError there), `ARSCParser(encode t)._analyse()`
+    does not raise, and `resource_values[rid]` — what `get_res_configs(rid)` lists — is, for every
+    id: absent when the table stores nothing under `rid`, else the table's configurations for
+    `rid` in order of first appearance, each with the entry stored last (`merged`); when the
+    configurations stored for `rid` are pairwise distinct, exactly the table's (configuration,
+    entry) pairs in file order. -/
+theorem table_resource_values (l : Layout) (t : Table) (hwf : wfTable l t = true)
+    (hnames : (t.packages.map fun p => utf8s p.name).Nodup) (han : analysable t = true) :
+    ∃ an, (parseTable (encTable l t).toArray).bind analyse = some an ∧
+      (∀ rid, dictGet an.resourceValues rid = merged none (storedFor t rid)) ∧
+      (∀ rid, ((storedFor t rid).map (·.1)).Nodup →
+        dictGet an.resourceValues rid = if (storedFor t rid).isEmpty then none else some (storedFor t rid)) := by
+  obtain ⟨an, h1, h2⟩ := resource_values_enc l t hwf hnames han
+  exact ⟨an, h1, h2, fun rid hd => by rw [h2 rid, merged_none_nodup _ hd]⟩
+
 /-! ### non-vacuity -/
 
 example : entryArray 0 3 (encPlain [some 0, none, some 16] ++ [9]) = some ([(0, 0), (16, 2)], [9]) := by decide
@@ -333,6 +352,11 @@ example : (parseTable (encTable exLayout exTable).toArray).bind viewParsed = som
 example : wfChunk .sparse ⟨2, ⟨1, 0x7266, 3, 4, 5, 6, 7, 8, 9⟩,
     [none, some (.complex 1 1 0 [(257, (16, 1)), (0, (1, 300))]), some (.simple 2 2 3 0)]⟩ = true := by decide
 example : IdInv 127 (pkgResId 127) := inv_pkg (by decide)
+example : analysable exTable = true := by decide +kernel
+example : (exTable.packages.map fun p => utf8s p.name).Nodup := by decide
+example : (storedFor exTable 0x7F020001).map (·.1) = [[1, 0x7266, 3, 4, 5, 6, 7, 8, 9]] := by decide
+example : analysable ⟨[], [⟨1, [97], [[115, 116, 114, 105, 110, 103]], [],
+    [⟨1, ⟨0, 0, 0, 0, 0, 0, 0, 0, 0⟩, [some (.complex 1 0 0 [])]⟩]⟩]⟩ = false := by decide +kernel
 example : ((viewTable exTable).packages.map fun p => p.chunks.map fun c => c.entries.map (·.1))
     = [[[0x7F010000, 0x7F010002], [0x7F020001, 0x7F020002], []], [[0x02010000]]] := by decide
 
